@@ -144,6 +144,22 @@ fn float_leg(g: &Grammar, tier: Tier) -> Acc {
             }
         }
     }
+    // long significands with large exponents (outside the fast-path family: compared with std's
+    // correctly rounded parser)
+    let sigs: [&str; 24] = [
+        "1234567890", "12345678901", "123456789012", "1234567890123", "12345678901234", "123456789012345", "1234567890123456", "12345678901234567", "9007199254740992",
+        "9007199254740993", "9007199254740991", "4503599627370497", "9999999999999999", "99999999999999999", "1000000000000001", "10000000000000001", "17976931348623157",
+        "22250738585072014", "4940656458412465", "18014398509481985", "7205759403792793", "2718281828459045", "3141592653589793", "6022140760000000",
+    ];
+    for s in sigs {
+        for e in -45..=45i32 {
+            lits.push(format!("f{s}e{e}"));
+            lits.push(format!("f-{}.{}E{e:+}", &s[..1], &s[1..]));
+            if e % 9 == 0 {
+                lits.push(format!("f0.{s}e{e}"));
+            }
+        }
+    }
     // plain spellings
     for m in 0..1000usize {
         lits.push(format!("f{m}"));
@@ -295,6 +311,19 @@ fn string_atoms_leg(g: &Grammar) -> Acc {
     let mut acc = Acc::new();
     let mut lits = Vec::new();
     let mut exp = Vec::new();
+    // zero-padded escapes of every width up to 12 hex digits
+    for cp in [0x41u32, 0xe9, 0x3a3, 0x1F600, 0x10FFFF, 0x0] {
+        for w in 1..=12usize {
+            let h = format!("{cp:0w$x}");
+            if h.len() == w {
+                let c = char::from_u32(cp).unwrap();
+                lits.push(format!("\"\\u{{{h}}}\""));
+                exp.push(RV::Str(c.to_string()));
+                lits.push(format!("\"a\\u{{{}}}b\\u{{{h}}}\"", h.to_uppercase()));
+                exp.push(RV::Str(format!("a{c}b{c}")));
+            }
+        }
+    }
     for (a, va) in &atoms {
         lits.push(format!("\"{a}\""));
         exp.push(RV::Str(va.to_string()));
